@@ -270,6 +270,13 @@ def run(ctx):
     for base in (ALLOF, ALLOF2):
         for tyop in ("typecheck", "typeexample", "typeast", "typeused"):
             order_cases.append(("%s on the type object before the root is checked" % tyop, dict(base, ops=[["checkfull"]]), dict(base, ops=[[tyop, "@A"], ["checkfull"]]), 0, 1))
+    # the known class (C11-shared-type-allOf-history): the Schema object of a type is itself a user of the tree that the root compiles - CompileAllOf of either rewrites it
+    D1A = {"schema": "@T", "roottypes": True, "types": [["@T", '{ // {allOf: "@P"}\n}'], ["@P", '{"w": 1}']]}
+    D1B = {"schema": "@T", "roottypes": True, "types": [["@T", '{ // {allOf: "@P"}\n}'], ["@P", '{"w": "s"}']], "private": [["@T", "@P", '{"w": 1}']]}
+    known_order = [("Check of the type object after Check of the root it was added to", dict(D1A, ops=[["typecheck", "@T"]]), dict(D1A, ops=[["check"], ["typecheck", "@T"]]), 0, 1),
+                   ("Validate by the root after Check of the type object (which knows another @P)", dict(D1B, ops=[["validate", '{"w": "s"}']]), dict(D1B, ops=[["typecheck", "@T"], ["validate", '{"w": "s"}']]), 0, 1)]
+    n_known_order = len(known_order)
+    order_cases += known_order
     ol = []
     for _, ref, alt, _, _ in order_cases:
         ol += [json.dumps(ref), json.dumps(alt)]
@@ -284,7 +291,8 @@ def run(ctx):
             continue        # AddRule refused: the caller knows the rule does not count
         if r1[ri] != r2[ai] and len(ctx.violations) < 40:
             dec = lambda x: (x.split("#")[0] + " " + bytes.fromhex(x.split("#")[1]).decode("utf-8", "replace").split("\n")[0]) if "#" in x else x
-            info = {"what": what, "reference": ref, "history": alt, "reference_result": dec(r1[ri]), "history_result": dec(r2[ai]), "op": ["order"]}
+            info = {"what": what, "reference": ref, "history": alt, "reference_result": dec(r1[ri]), "history_result": dec(r2[ai]), "op": ["order"],
+                    "cls": "shared-allof-private-parent" if i >= len(order_cases) - n_known_order else None}
             ctx.report("%s: Check says %s; without it %s (schema %r)" % (what, dec(r2[ai])[:120], dec(r1[ri])[:120], alt["schema"][:60]), "c11order:" + ol[2 * i + 1], info, case=info)
     ctx.extra["order_cases"] = len(order_cases)
     ctx.extra["repeat_cases"] = nrep
